@@ -41,6 +41,7 @@ Fixpoint show_act (a : act) : str :=
   | ACommit _ => [77]
   | ASetStable _ _ => [75]
   | AInitMeta => [73]
+  | AList => [76]
   | AFail a' => bang :: show_act a'
   end.
 
@@ -58,7 +59,8 @@ Fixpoint insert_str (s : str) (l : list str) : list str :=
   end.
 Definition sort_strs (l : list str) : list str := fold_right insert_str [] l.
 
-Definition is_delete (s : str) : bool := match s with 68 :: _ => true | _ => false end.
+(* failed deletions ("!D...") belong to the run as well *)
+Definition is_delete (s : str) : bool := match s with 68 :: _ => true | 33 :: 68 :: _ => true | _ => false end.
 Fixpoint canon_acts (l : list str) (run : list str) : list str :=
   match l with
   | [] => sort_strs run
@@ -181,7 +183,7 @@ Fixpoint run_ops (fuel : nat) (st : rst) (ts : list str) (acc : list str) : list
             let e0 := r_env st in
             let '(res, e') := open_wal (r_cfg st)
                                 {| e_acts := e_acts e0; e_disk := adopt_disk (e_disk e0);
-                                   e_fault := e_fault e0; e_m := zero_metrics |} in
+                                   e_fault := e_fault e0; e_fx := e_fx e0; e_m := zero_metrics |} in
             match res with
             | OOk w => run_ops fuel' (set_we st w e') r (s_ok :: acc)
             | OErr _ => run_ops fuel' {| r_cfg := r_cfg st; r_wal := None; r_env := e'; r_mark := r_mark st; r_base := r_base st; r_base_n := r_base_n st |}
@@ -341,11 +343,29 @@ Fixpoint run_ops (fuel : nat) (st : rst) (ts : list str) (acc : list str) : list
                 | Some k =>
                     let e := r_env st in
                     run_ops fuel' (set_e st {| e_acts := e_acts e; e_disk := e_disk e;
-                                               e_fault := Some (N.to_nat k); e_m := e_m e |}) r1 acc
+                                               e_fault := Some (N.to_nat k); e_fx := e_fx e; e_m := e_m e |}) r1 acc
                 | None => bad
                 end
             | _ => bad
             end
+          else if chr 63 op then (* ? flags : fault modes, in force while a counted fault is armed:
+                                     1 every deletion fails, 2 the next directory listing fails,
+                                     4 a creation hit by the counted fault leaves the empty file *)
+            match r with
+            | k :: r1 =>
+                match hex_to_N k with
+                | Some k =>
+                    let e := r_env st in
+                    run_ops fuel' (set_e st {| e_acts := e_acts e; e_disk := e_disk e; e_fault := e_fault e;
+                                               e_fx := {| fx_del := N.testbit k 0; fx_list := N.testbit k 1; fx_leave := N.testbit k 2 |};
+                                               e_m := e_m e |}) r1 acc
+                | None => bad
+                end
+            | _ => bad
+            end
+          else if chr 126 op then (* ~ : disarm the fault and the modes *)
+            let e := r_env st in
+            run_ops fuel' (set_e st {| e_acts := e_acts e; e_disk := e_disk e; e_fault := None; e_fx := fx_none; e_m := e_m e |}) r acc
           else if chr 67 op then (* C k nkf names nkb names : power loss after k actions *)
             match r with
             | k :: nf :: r1 =>
@@ -369,7 +389,7 @@ Fixpoint run_ops (fuel : nat) (st : rst) (ts : list str) (acc : list str) : list
                                                     (fold_left apply_act since (r_base st)) in
                                 run_ops fuel' {| r_cfg := r_cfg st; r_wal := None;
                                                  r_env := {| e_acts := rev_append pre []; e_disk := d;
-                                                             e_fault := None; e_m := zero_metrics |};
+                                                             e_fault := None; e_fx := fx_none; e_m := zero_metrics |};
                                                  r_mark := length pre; r_base := d; r_base_n := length pre |} r3 acc
                               end
                             | None => bad
@@ -385,8 +405,9 @@ Fixpoint run_ops (fuel : nat) (st : rst) (ts : list str) (acc : list str) : list
           else if chr 90 op then (* Z : process restart without power loss *)
             run_ops fuel' {| r_cfg := r_cfg st; r_wal := None;
                              r_env := {| e_acts := e_acts (r_env st); e_disk := adopt_disk (e_disk (r_env st));
-                                         e_fault := e_fault (r_env st); e_m := zero_metrics |};
-                             r_mark := r_mark st; r_base := r_base st; r_base_n := r_base_n st |} r acc
+                                         e_fault := e_fault (r_env st); e_fx := e_fx (r_env st); e_m := zero_metrics |};
+                             (* the trace restarts here *)
+                             r_mark := length (e_acts (r_env st)); r_base := r_base st; r_base_n := r_base_n st |} r acc
           else if chr 78 op then (* N : number of I/O actions so far *)
             run_ops fuel' st r (N_to_hex (N.of_nat (length (e_acts (r_env st)))) :: acc)
           else if chr 81 op then (* Q codec : change the configured codec id for the next open *)
@@ -412,7 +433,7 @@ Definition run_wal (ts : list str) : str :=
       | Some sz, Some cd =>
           join (run_ops (S (length ops))
                         {| r_cfg := {| c_seg_size := sz; c_codec := cd |}; r_wal := None;
-                           r_env := {| e_acts := []; e_disk := empty_disk; e_fault := None; e_m := zero_metrics |};
+                           r_env := {| e_acts := []; e_disk := empty_disk; e_fault := None; e_fx := fx_none; e_m := zero_metrics |};
                            r_mark := 0; r_base := empty_disk; r_base_n := 0 |} ops [])
       | _, _ => s_bad
       end
